@@ -10,7 +10,7 @@ def sources(tier, seed, n_mod=None, n_expr=None, corpus=True):
     quick = tier == 'quick'
     n_mod = n_mod if n_mod is not None else (250 if quick else 4000)
     n_expr = n_expr if n_expr is not None else (1200 if quick else 12000)
-    for tag, s in seeds.all_seeds():
+    for tag, s in seeds.all_seeds() + seeds.VERSION_SENSITIVE + seeds.PY2_SEEDS:
         yield {'shape': 'seed:' + tag, 'src': s}
     r = common.rng(seed, 'union')
     trig = list(triggergen.cases())
